@@ -101,7 +101,7 @@ def check(ctx):
     # ---------------------------------------------------------------- (a) model checking of the design module
     import time
     t_phase = time.time()
-    mc = ["free_quick", "free2_quick"] if quick else ["free_thorough", "free2_thorough", "refresh", "fix_thorough", "live"]
+    mc = ["free_quick", "free2_quick", "kfwitness"] if quick else ["free_thorough", "free2_thorough", "refresh", "fix_thorough", "live"]
     kf_states = 0
     for name in mc:
         res = c.tlc_must_pass(ctx, name, "RemoteLc.tla", "RemoteLc_%s.cfg" % name, timeout=3000)
@@ -110,7 +110,7 @@ def check(ctx):
         # vacuity: the quick model-checking config must reach idle states with an entry in excess (the known finding's shape)
         ctx.extra["model_idle_states_with_removed_lifecycle_listed"] = kf_states
         if kf_states == 0:
-            raise c.ToolError("vacuity: RemoteLc_free_quick.cfg reaches no idle state with a lifecycle listed in excess")
+            raise c.ToolError("vacuity: RemoteLc_kfwitness.cfg reaches no idle state with a lifecycle listed in excess")
     else:
         # the model of the code as it is must exhibit the finding (informational, like the *_snapshot configs of other areas)
         res = c.tlc(os.path.join(c.SPEC, "RemoteLc.tla"), os.path.join(c.SPEC, "mc", "RemoteLc_asis_noextra.cfg"), ctx.path("tlc-asis"),
@@ -260,37 +260,42 @@ def check(ctx):
             raise c.ToolError("a server process exited during the run: %s" % info["server_exit"])
         skip = set(v.known) | {k for k, evs in cases.items() if evs[-1]["ev"] != "end" or not any(e["ev"] == "lcs" for e in evs)}
 
-        def corrupt_nr(evs):
-            for e in reversed(evs):
-                if e["ev"] == "lcs":
-                    e["items"][-1]["nr"] += 1
-                    return True
-            return False
-        c.binding_selftest(ctx, "nr", TRACE_MODULE, trace, sw, corrupt_nr, max_cases=12, skip=skip)
+        # binding self-test: every second accepted case gets one corruption (the kind rotates); TLC must reject exactly those
+        kinds_hit = collections.Counter()
+        state = {"i": 0}
 
-        def drop_last_lcs(evs):
-            for i in range(len(evs) - 1, -1, -1):
-                if evs[i]["ev"] == "lcs":
-                    del evs[i]
+        def corrupt(evs):
+            kind = state["i"] % 4
+            state["i"] += 1
+            if kind == 0:            # a lifecycle entry of the last frame with another message count -> table differs
+                for e in reversed(evs):
+                    if e["ev"] == "lcs":
+                        e["items"][-1]["nr"] += 1
+                        kinds_hit["lifecycle_field"] += 1
+                        return True
+            elif kind == 1:          # the last lifecycle frame is lost -> something missing or stale
+                for i in range(len(evs) - 1, -1, -1):
+                    if evs[i]["ev"] == "lcs":
+                        del evs[i]
+                        kinds_hit["lifecycle_frame_dropped"] += 1
+                        return True
+            elif kind == 2:          # the last FileInfo count one lower -> decreasing / wrong final count
+                fis = [i for i, e in enumerate(evs) if e["ev"] == "fi"]
+                if fis:
+                    evs[fis[-1]]["nr"] -= 1
+                    kinds_hit["fileinfo_count"] += 1
                     return True
+            else:                    # the last statistics frame counts one message more
+                for e in reversed(evs):
+                    if e["ev"] == "eac" and e["ecus"]:
+                        e["ecus"][0][1] += 1
+                        kinds_hit["statistics_count"] += 1
+                        return True
             return False
-        c.binding_selftest(ctx, "drop-frame", TRACE_MODULE, trace, sw, drop_last_lcs, max_cases=12, skip=skip)
-
-        def fi_down(evs):
-            fis = [i for i, e in enumerate(evs) if e["ev"] == "fi"]
-            if fis:
-                evs[fis[-1]]["nr"] -= 1
-                return True
-            return False
-        c.binding_selftest(ctx, "fileinfo", TRACE_MODULE, trace, sw, fi_down, max_cases=12, skip=skip)
-
-        def eac_off(evs):
-            for e in reversed(evs):
-                if e["ev"] == "eac" and e["ecus"]:
-                    e["ecus"][0][1] += 1
-                    return True
-            return False
-        c.binding_selftest(ctx, "eac", TRACE_MODULE, trace, sw, eac_off, max_cases=12, skip=skip)
+        c.binding_selftest(ctx, "corrupt", TRACE_MODULE, trace, sw, corrupt, max_cases=24, skip=skip)
+        ctx.extra["binding_selftest"]["kinds"] = dict(kinds_hit)
+        if len(kinds_hit) < 4:
+            raise c.ToolError("binding self-test: not every corruption kind could be applied: %s" % dict(kinds_hit))
     ctx.assumptions = ["TLC and CommunityModules are correct",
                        "the driver's projection is correct (frame decoding with the repo's own bincode types, field copies, seconds/microseconds split, "
                        "relative lifecycle ids, per-id counting of delivered messages, histogram of the parsed file for files > 1500 messages)",
